@@ -78,6 +78,8 @@ class ClassInfo:
         self.qual = module.name + '.' + node.name
         self.methods = {}
         self.class_attrs = {}
+        self.ann_fields = []      # [(name, default node or None)] in source order (dataclass fields)
+        self.decorators = [ast.unparse(d) for d in node.decorator_list]
         for st in node.body:
             if isinstance(st, (ast.FunctionDef, ast.AsyncFunctionDef)):
                 # property setters share the name: keep getter under name,
@@ -91,6 +93,10 @@ class ClassInfo:
                 for t in st.targets:
                     if isinstance(t, ast.Name):
                         self.class_attrs[t.id] = st.value
+            elif isinstance(st, ast.AnnAssign) and isinstance(st.target, ast.Name):
+                self.ann_fields.append((st.target.id, st.value))
+                if st.value is not None:
+                    self.class_attrs[st.target.id] = st.value
         self.bases = []       # resolved ClassInfo (unresolvable/external bases skipped)
         self.base_exprs = [ast.unparse(b) for b in node.bases]
         self.mro = None
@@ -323,6 +329,37 @@ class Repo:
                     return ('method', got[0], got[1])
             return None
         return None
+
+    def reached_tables(self, m, fn):
+        """dict literals a function can consult, found by following the code rather than by name: literals
+        assigned to a name inside the function or inside functions of the package it (transitively) calls, and
+        module-level literals (of any module, also imported ones) whose name is read there.
+        -> [(module, variable name, ast.Dict)] in discovery order"""
+        out = []
+        seen_fn = set()
+        seen_node = set()
+
+        def visit(mod, f):
+            if id(f) in seen_fn:
+                return
+            seen_fn.add(id(f))
+            for n in ast.walk(f):
+                if isinstance(n, ast.Assign) and isinstance(n.value, ast.Dict) and len(n.targets) == 1 \
+                        and isinstance(n.targets[0], ast.Name) and id(n.value) not in seen_node:
+                    seen_node.add(id(n.value))
+                    out.append((mod, n.targets[0].id, n.value))
+            for n in ast.walk(f):
+                if isinstance(n, (ast.Name, ast.Attribute)) and isinstance(getattr(n, 'ctx', None), ast.Load):
+                    r = self.resolve_expr(mod, n)
+                    if isinstance(r, tuple) and r[0] == 'function':
+                        visit(r[1], r[2])
+                    elif isinstance(r, tuple) and r[0] == 'value' and isinstance(r[2], ast.Dict) \
+                            and id(r[2]) not in seen_node:
+                        seen_node.add(id(r[2]))
+                        nm = [k for k, v in r[1].assigns.items() if v and v[-1] is r[2]]
+                        out.append((r[1], nm[0] if nm else ast.unparse(n), r[2]))
+        visit(m, fn)
+        return out
 
     def find_method(self, ci, name, missing_ok=False, after=None):
         """(owner ClassInfo, FunctionDef) of ``name`` through the MRO of ci.
